@@ -17,6 +17,7 @@ class Monitor:
         self.history = {}       # id(obj) -> list of (lb, ub)
         self.objs = {}
         self.events = []
+        self.invalidated = []
         self.calls = 0
         self.classes = []
         self.installed = []
@@ -75,7 +76,10 @@ class Monitor:
         name = type(obj).__name__
         valid = getattr(obj, 'valid', True)
         if not valid:
-            return      # an invalidated edit is discarded by its owner; its range is meaningless (Range())
+            # an edit that invalidates itself (its cost exceeds its own constant ceiling) reports the meaningless Range():
+            # legitimate only for an alternative that is really impossible; recorded so that the harness can decide
+            self.invalidated.append((name, before, r, after))
+            return
         try:
             if after[0] < before[0] or after[1] > before[1]:
                 self.events.append(('widened', name, before, r, after))
